@@ -341,6 +341,8 @@ job_strm(const char *data, size_t dz, const char *sched)
 	printf("end\n");
 }
 
+#include "simp_rt.h"
+
 const char *__asan_default_options(void);
 __attribute__((used)) const char*
 __asan_default_options(void)
@@ -390,6 +392,8 @@ do_job(char *line)
 		job_parse(tok[1][0], tok[2][0], cur_data, cur_dz, sz, nsz, nocc);
 	} else if (!strcmp(tok[0], "strm") && nt >= 2) {
 		job_strm(cur_data, cur_dz, tok[1]);
+	} else if (!strcmp(tok[0], "rt") && nt >= 3) {
+		job_rt(cur_data, cur_dz, atoi(tok[1]), atoi(tok[2]));
 	}
 }
 
